@@ -496,12 +496,13 @@ func fileLinesIter(L *LState) int {
 		L.RaiseError("file is already closed")
 	}
 	file.flushWriter()
-	buf, _, err := file.reader.ReadLine()
+	// a whole line, however long (ReadLine alone returns at most one buffer's worth)
+	buf, err, iseof := readBufioLine(file.reader)
+	if iseof {
+		L.Push(LNil)
+		return 1
+	}
 	if err != nil {
-		if err == io.EOF {
-			L.Push(LNil)
-			return 1
-		}
 		L.RaiseError(err.Error())
 	}
 	L.Push(LString(string(buf)))
@@ -618,15 +619,15 @@ func ioLinesIter(L *LState) int {
 		L.RaiseError("file is already closed")
 	}
 	file.flushWriter()
-	buf, _, err := file.reader.ReadLine()
-	if err != nil {
-		if err == io.EOF {
-			if toclose {
-				fileCloseAux(L, file)
-			}
-			L.Push(LNil)
-			return 1
+	buf, err, iseof := readBufioLine(file.reader)
+	if iseof {
+		if toclose {
+			fileCloseAux(L, file)
 		}
+		L.Push(LNil)
+		return 1
+	}
+	if err != nil {
 		L.RaiseError(err.Error())
 	}
 	L.Push(LString(string(buf)))
